@@ -285,6 +285,28 @@ def rule_fallback(fx, rep):
         ok = False
         rep.violation("C09-FALLBACK", "C09-FALLBACK/return", f"search::search has a return that is neither `pv.first()` with the panic-move fallback nor a tablebase move: {[show(e)[:80] for _, e in rets]}",
                       {"fn": search.name, "file": search.file, "line": search.line})
+    # the fallback move is generated for the position the caller handed in (the `&Game` parameter, never written: C09-IMM),
+    # not for the working copy the aborted search leaves at some inner node
+    from facts import resolve_captures
+    n += 1
+    good = False
+    seen_pm = 0
+    for b in fx.bodies.values():
+        if "::tests::" in b.name:
+            continue
+        for bb, t in b.calls_to("search::panic_move"):
+            seen_pm += 1
+            g = b.expr(t["args"][0], expand_named=True, at=bb)
+            if b.kind == "Closure":
+                g = resolve_captures(fx, b, g)
+            g = deep_strip(g)
+            root = b if b.kind != "Closure" else fx.bodies.get(b.parent)
+            good = root is search and isinstance(g, tuple) and g[:2] == ("arg", 1)
+            if not good:
+                ok = False
+                rep.violation("C09-FALLBACK", "C09-FALLBACK/panic-move-position", f"panic_move is given `{show(g)[:80]}`, not the position passed to search::search: after an abort the search's working copy is left at an inner node, so the fallback move would be one of that node's moves",
+                              {"fn": b.name, "file": b.file, "line": t.get("line")})
+    rep.obligation(good and seen_pm >= 1)
     # panic_move: first move of a fresh move picker
     pm = fx.one("search::panic_move")
     n += 1
@@ -321,6 +343,10 @@ ID = "src/engine/search/iterative_deepening.rs"
 TC = "src/engine/search/time_control.rs"
 SM = "src/engine/search/mod.rs"
 MUTANTS = [
+    {"name": "fallback move generated from the search's working copy (seed C09-2)", "expect": "C09-FALLBACK/panic-move-position",
+     "edits": [(SM, "    iterative_deepening::search(\n        // Give the search its own copy of the game so we don't get one returned in a dirty state\n        // when the search aborts.\n        &mut game.clone(),\n        &mut ctx,\n        &mut pv,\n        reporter,\n    );",
+                "    let mut game = game.clone();\n\n    iterative_deepening::search(&mut game, &mut ctx, &mut pv, reporter);"),
+               (SM, "    best_move.unwrap_or_else(|| panic_move(game, &ctx))", "    best_move.unwrap_or_else(|| panic_move(&game, &ctx))")]},
     {"name": "aborted reduced search treated as a draw score", "expect": "C09-ERR",
      "edits": [(NG, "                depth.saturating_sub(reduction),\n                plies + 1,\n                &mut node_pv,\n                ctx,\n            )?;", "                depth.saturating_sub(reduction),\n                plies + 1,\n                &mut node_pv,\n                ctx,\n            ).unwrap_or(Eval::DRAW);")]},
     {"name": "quiescence swallows the abort", "expect": "C09-ERR",
